@@ -326,6 +326,42 @@ fn main() {
     let root = std::env::temp_dir().join(format!("verif_surface_{}", std::process::id()));
     let _ = fs::create_dir_all(&root);
 
+    // ============================================================ shape probe: does this harness still understand the generated text?
+    // A known-good two-item project is generated and read back with the parsers every check below relies on.  If they fail
+    // (the templates were reformatted), nothing below can tell a violation from a parsing problem: failures are then UNDECIDED.
+    {
+        let src = format!("{}use tauri::Emitter;\n#[derive(Serialize, Deserialize, Clone)]\npub struct Probe {{ pub a: u32, pub b: Option<String> }}\n#[derive(Serialize, Deserialize, Clone)]\npub enum ProbeKind {{ One, Two }}\n\
+            #[tauri::command]\npub fn probe(app: tauri::AppHandle, p: Probe) -> ProbeKind {{ app.emit(\"probe-ev\", p).ok(); ProbeKind::One }}\n", HDR);
+        let dir = root.join("probe/src");
+        write_files(&dir, &[("lib.rs".to_string(), src)]);
+        let mut problems: Vec<String> = Vec::new();
+        for mode in ["none", "zod"] {
+            match generate(&dir, &root.join(format!("probe/out_{}", mode)), mode) {
+                Err(e) => problems.push(format!("{}: {}", mode, e)),
+                Ok(files) => {
+                    let zod = mode == "zod";
+                    let t = files.get("types.ts").cloned().unwrap_or_default();
+                    let c = files.get("commands.ts").cloned().unwrap_or_default();
+                    let e = files.get("events.ts").cloned().unwrap_or_default();
+                    if object_keys(&t, "Probe", zod) != Some(vec!["a".to_string(), "b".to_string()]) { problems.push(format!("{}: keys of Probe read as {:?}", mode, object_keys(&t, "Probe", zod))); }
+                    if enum_literals(&t, "ProbeKind", zod) != Some(vec!["One".to_string(), "Two".to_string()]) { problems.push(format!("{}: members of ProbeKind read as {:?}", mode, enum_literals(&t, "ProbeKind", zod))); }
+                    if object_keys(&t, "ProbeParams", zod) != Some(vec!["p".to_string()]) { problems.push(format!("{}: keys of ProbeParams read as {:?}", mode, object_keys(&t, "ProbeParams", zod))); }
+                    if zod && zod_field(&t, "Probe", "b").map_or(true, |v| !v.ends_with(".optional()")) { problems.push(format!("zod: Probe.b read as {:?}", zod_field(&t, "Probe", "b"))); }
+                    if !zod && !t.contains("  b?: string | null;") { problems.push("none: optional field line of Probe not found".into()); }
+                    if !c.contains("export async function probe(") || !c.lines().any(|l| l.contains("export async function probe(") && l.contains("): Promise<types.ProbeKind>")) { problems.push(format!("{}: wrapper line of `probe` not found", mode)); }
+                    if !c.contains("'probe'") { problems.push(format!("{}: invoke('probe' ..) not found", mode)); }
+                    if !e.contains("return listen<types.Probe>('probe-ev',") || !e.contains("export async function onProbeEv(") { problems.push(format!("{}: listener of 'probe-ev' not found in the expected form", mode)); }
+                    if !exports_of(&t).contains("Probe") { problems.push(format!("{}: exports of types.ts read as {:?}", mode, exports_of(&t))); }
+                }
+            }
+        }
+        if !problems.is_empty() {
+            rep.downgrade = true;
+            let msg = format!("UNPARSED: the shape of the generated files is not the one this harness reads: {}", problems.join("; "));
+            rep.case("output_shape_probe", "project=probe", &|| Err(msg.clone()));
+        }
+    }
+
     // ============================================================ C04: injected-parameter spellings
     {
         let injected = [
